@@ -65,6 +65,8 @@ func runHedge(t *testing.T, h HCase) (lit string, js map[string]any, hedged int,
 		var hedgeEvents []string
 		b = b.OnHedge(func(e failsafe.ExecutionEvent[int]) { hedgeEvents = append(hedgeEvents, fmt.Sprint(now())) })
 		hp := b.Build()
+		// the builder goes on to build another policy with cancel conditions of its own: the policy built first keeps its own
+		b.CancelOnResult(123456).CancelIf(func(int, error) bool { return false })
 		pols := []failsafe.Policy[int]{hp}
 		if h.RetryDelay > 0 {
 			pols = []failsafe.Policy[int]{retrypolicy.Builder[int]().WithMaxRetries(1).WithDelay(time.Duration(h.RetryDelay)).Build(), hp}
@@ -245,6 +247,7 @@ func driveC09x(t *testing.T) {
 
 func TestDrive_C09(t *testing.T) {
 	driveC09x(t)
+	driveSlowHedgeUserCodeProbes(t)
 	w := NewCaseWriter(t, "C09", "FS.Corr.C09")
 	w.shardCap = envInt("VERIF_SHARD", 200)
 	w.Extra = "Definition K := Eval vm_compute in skipped_ids cases.\nPrint K.\n"
